@@ -290,6 +290,16 @@ func init() {
 		}
 		// any other io.Reader: keep it for models that supply ReadAll-able content
 		if src, ok := fr.i.readerContent(fr, rd); ok {
+			// the reader buffers what the connection delivers: the harness connection is told that its
+			// bytes have been taken (a second reader over the same connection finds nothing left)
+			if rd.t != nil {
+				ms := fr.i.prog.MethodSets.MethodSet(rd.t)
+				for k := 0; k < ms.Len(); k++ {
+					if ms.At(k).Obj().Name() == "VerifConsume" {
+						call(fr.i, fr, token.NoPos, fr.i.prog.MethodValue(ms.At(k)), []value{rd.v})
+					}
+				}
+			}
 			var c value = &opaque{kind: "respreader", data: &respReader{cur: &respCursor{p: normRope(src.p)}}}
 			return &c
 		}
